@@ -26,6 +26,8 @@ partial def Val.show : Val → String
 inductive Act
   | emit (tgt kind delay : Nat) (daemon : Bool) (hook : Nat)   -- hook = 0: none; h>0: completion hook h attached
   | emitPast (tgt kind back : Nat) (daemon : Bool)             -- an event stamped `back` ns before now (clamped at 0)
+  | emitAbs (tgt kind time : Nat) (daemon : Bool)              -- an event at an absolute timestamp
+  | release (i : Nat)                       -- hand a pre-created (held) event i to the scheduler
   | cancel (kind : Nat)                     -- cancel the most recently created event of this kind
   | resolve (f : Nat) (v : Nat)
   | anyOf (f : Nat) (gs : List Nat)         -- slot f := any_of(gs…)
@@ -97,6 +99,7 @@ structure PS where
   tagc : Nat := 0                            -- harness creation tags handed out so far
   crashed : List Nat := []                   -- entities with `_crashed = True`
   gateCont : Bool := false                   -- variant: continuations to a crashed entity are gated too
+  held : List (Nat × Spec) := []             -- events created before the run and not yet scheduled
 
 def futGet (fs : List Fut) (f : Nat) : Fut := fs.getD f ({} : Fut)
 def futSet (fs : List Fut) (f : Nat) (x : Fut) : List Fut :=
@@ -175,6 +178,15 @@ def enum {α} (l : List α) : List (Nat × α) := (List.range l.length).zip l
 
 def runAct (now : Nat) (e : Eff) : Act → Eff
   | .emit tgt kind delay daemon hook => e.push ⟨now + delay, tgt, kind, daemon, 0, 0⟩ hook
+  | .emitAbs tgt kind time daemon => e.push ⟨time, tgt, kind, daemon, 0, 0⟩ 0
+  | .release i =>
+    match e.ps.held.find? (fun p => p.1 == i) with
+    | none => e
+    | some (_, sp) =>
+      -- scheduled now, with the creation tag it got before the run
+      let id := e.ps.nid
+      { e with specs := e.specs ++ [sp],
+               ps := { e.ps with nid := id + 1, held := e.ps.held.filter (fun p => p.1 != i) } }
   | .emitPast tgt kind back daemon => e.push ⟨now - back, tgt, kind, daemon, 0, 0⟩ 0
   | .crash x => { e with ps := { e.ps with crashed := x :: e.ps.crashed.filter (· != x) } }
   | .restore x => { e with ps := { e.ps with crashed := e.ps.crashed.filter (· != x) } }
